@@ -209,10 +209,11 @@ bool StepScript(InterpreterEnv& env)
             stack = env.p2shstack;
             // swap(stack, stackCopy);
 
-            // stack cannot be empty here, because if it was the
-            // P2SH  HASH <> EQUAL  scriptPubKey would be evaluated with
-            // an empty stack and the EvalScript above would return false.
-            assert(!stack.empty());
+            // stack cannot be empty here in a run without failures, because the P2SH  HASH <> EQUAL  scriptPubKey
+            // would have failed on an empty stack -- but the debugger lets the user keep stepping after a failed
+            // operation, so this must be an error, not an assertion
+            if (stack.empty())
+                return set_error(serror, SCRIPT_ERR_INVALID_STACK_OPERATION);
 
             const valtype& pubKeySerialized = stack.back();
             CScript pubKey2(pubKeySerialized.begin(), pubKeySerialized.end());
